@@ -236,6 +236,15 @@ def corpus_descs():
     for bt, en in ((cc.BASCII, 1), (cc.BUTF8, 4), (cc.BUNI, 0)):
         out.append(([cc.param("p1", dict(k="value", dop=cc.simple(cc.std(bt, 16, en)), dflt=None))], False,
                     [{"p1": "ab"}, {"p1": "a"}]))
+    # bit masks on little-endian and big-endian integers, with and without a bit position: the unmasked bits
+    # come back, the masked ones are dropped
+    for hl in (True, False):
+        for bp in (None, 1, 3):
+            for bl, mask in ((16, 0x00FF), (16, 0x0FF0), (12, 0x493), (24, 0xFF00FF)):
+                d = cc.simple(cc.std(cc.BUINT, bl, None, hl, mask))
+                out.append(([cc.param("p1", dict(k="value", dop=d, dflt=None), 0, bp),
+                             cc.param("p2", dict(k="value", dop=u8(), dflt=None), 5)], False,
+                            [{"p1": v & ((1 << bl) - 1), "p2": 0xAA} for v in (0x1234, 0xFFFFFF, 0x0F0F0F, 0)]))
     # terminated two-byte strings: a misaligned 00 00 / FF FF inside the value in front of an aligned one (the encoder must
     # reject the aligned one; the misaligned one is harmless), and the same for one-byte terminators
     for term in (0, 1):
